@@ -20,15 +20,17 @@
          last-key-of-block <= k < first-key-of-next-block and the canonical varint64 of the
          block's start offset;
        . the entries of the blocks, in order, are the entries whose add succeeded.
-   The FULL STATEMENT through the independent decoder (C09_statement: spec/Parse.v accepts
-   the file and wf_validate passes) is not proved as a theorem; the extracted decoder and
-   validator judge every file the REAL writer produces (engine wr), which is also where the
-   model is tied to writer.c / block_builder.c byte for byte.  Blocks of 4 GiB and more
-   (64-bit restart arrays) are outside T09d (hypothesis entry_fits). *)
+   The FULL STATEMENT through the independent decoder (spec/Parse.v accepts the file,
+   wf_validate passes every clause, the decoded entries are the accepted ones) is T09_full in
+   the second part of this file, with T09e / T09f and the refutation of the statement without
+   its size hypotheses (T09_unrestricted_refuted: the 4 GiB restart-width switch, observation O1).
+   The extracted decoder and validator also judge every file the REAL writer produces (engine
+   wr), which is where the model is tied to writer.c / block_builder.c byte for byte.  Blocks of
+   4 GiB and more (64-bit restart arrays) are outside T09d / T09_full (hypothesis entry_fits). *)
 From Coq Require Import NArith ZArith List Lia.
 From Mtbl Require Import gen.Consts model.Bytes model.Codec model.Order model.Block model.Crc model.Writer
   spec.Leb128 spec.Parse model.Reader proofs.BytesLemmas proofs.CodecProofs proofs.OrderProofs proofs.WriterProofs proofs.MetaProofs
-  proofs.BlockRT proofs.TableRT.
+  proofs.BlockRT proofs.TableRT proofs.ParseProofs proofs.ParseTable proofs.ParseSwitch.
 Local Open Scope N_scope.
 
 Section C09.
@@ -37,15 +39,6 @@ Variable compress_level : N -> Z -> bytes -> res bytes.
 Variable decompress : N -> bytes -> res bytes.
 Hypothesis compress_default_total : forall a raw, exists c, compress_default a raw = Ok c.
 Hypothesis compress_level_total : forall a l raw, exists c, compress_level a l raw = Ok c.
-
-(* the full property, as a statement about the model writer and the independent decoder *)
-Definition C09_statement : Prop :=
-  forall o off0 ops w rs, 1 <= wo_interval o ->
-    Forall (fun kv => wf_bytes (fst kv) /\ wf_bytes (snd kv) /\ len (fst kv) < 2 ^ 32 /\ len (snd kv) < 2 ^ 32) ops ->
-    writer_session compress_default compress_level o off0 ops = Ok (w, rs) ->
-    exists t, parse_table decompress off0 (writer_bytes w) = inr t /\
-      wf_validate off0 (mkexpect (wo_block_size o) (wo_interval o) (wo_comp o)) t = 0 /\
-      table_entries t = accepted None ops.
 
 (* T09b_layout_partial: layout of the finished file *)
 Theorem T09b_layout_partial : forall o off0 ops, 1 <= wo_interval o ->
@@ -154,3 +147,155 @@ Example T09_example :
   | _ => False
   end.
 Proof. vm_compute. repeat split. Qed.
+
+
+(* ======================================================================================= *)
+(* C09, full statement - Written files are well-formed MTBL v2 as judged by the independent
+   decoder and validator of spec/Parse.v.
+   PROVED (T09_full, from proofs/ParseProofs.v + proofs/ParseTable.v): for every configuration
+   (restart interval >= 1; any compression algorithm/level whose compressor round-trips through
+   [decompress] and returns strings of bytes), initial offset and sequence of adds (refused adds
+   included), if the session succeeds then
+     1. parse_table accepts the file, and the table it returns is the ghost structure of
+        T09d_file_structure: one decoded block per written block (its entries, restart array,
+        raw size), at its start offset and with its framed size, the index block, and the
+        trailer = the writer's nine statistics (T09e_decoder_finds_structure);
+     2. its entries are exactly the accepted entries ([accepted None ops] = [kept ops rs]);
+     3. wf_validate returns 0: version; per data block canonical varints, restart cadence
+        0,I,2I,..., nothing shared at a restart point and the longest common prefix elsewhere,
+        restart array = offsets of the restart entries; the same for the index block (or the
+        single restart 0 of the empty index); strictly increasing keys; per data block an index
+        entry last-key <= k < next-first-key holding the canonical varint64 of the block's
+        offset; the size policy and the cut rule; all nine trailer statistics.
+   Domain (hypothesis fits09; the sizes that fit the integer widths of the format, as in
+   T01 / T09d): keys and values are strings of bytes shorter than 4 GiB,
+   block_size + |key| + |value| + 32 < 2^32 for every add, index block (framed) < 4 GiB,
+   the nine statistics < 2^64.  Nothing else is assumed about sizes: block offsets and stored
+   lengths < 2^64 follow from the statistics.
+   The statement of Properties_C09.C09_statement itself (only |key|,|value| < 2^32) is FALSE:
+     - C09_needs_roundtrip: [decompress] unrelated to the compressor;
+     - C09_needs_bytes: a huge "byte" (2^110) in a value makes the model CRC exceed 32 bits
+       (an artefact of bytes being N in the model - hence wf_bytes on values and on the
+       compressor's output);
+     - statistics >= 2^64 wrap in the trailer but not in the validator (meta_small);
+     - the 4 GiB restart-width switch, proofs/ParseSwitch.v (C09_statement_false, proved for
+       every compressor/decompressor by a run of the model writer symbolic in a 4 GiB value): with
+       block_size = 2^32+49 and interval 1, a 9-entry block whose entry region grows from
+       2^32-4 to 2^32 bytes on the last add is not cut (the estimate before the add counts
+       4-byte restarts) but finishes with 8-byte restarts at 2^32+76 >= block_size bytes:
+       the validator's size clause (E_SIZE) fails.  Excluded by block_size+|k|+|v|+32 < 2^32. *)
+Section C09full.
+Variable compress_default : N -> bytes -> res bytes.
+Variable compress_level : N -> Z -> bytes -> res bytes.
+Variable decompress : N -> bytes -> res bytes.
+Hypothesis decompress_compress_default : forall a raw c, compress_default a raw = Ok c -> decompress a c = Ok raw.
+Hypothesis decompress_compress_level : forall a l raw c, compress_level a l raw = Ok c -> decompress a c = Ok raw.
+Hypothesis compress_default_bytes : forall a raw c, wf_bytes raw -> compress_default a raw = Ok c -> wf_bytes c.
+Hypothesis compress_level_bytes : forall a l raw c, wf_bytes raw -> compress_level a l raw = Ok c -> wf_bytes c.
+
+(* sizes fit the integer widths of the format *)
+Definition fits (o : wopts) (ops : list entry) (w : writer) : Prop :=
+  Forall (fun kv => (wf_bytes (fst kv) /\ len (fst kv) < 2 ^ 32 /\ len (snd kv) < 2 ^ 32 /\
+                     wo_block_size o + len (fst kv) + len (snd kv) + 32 < 2 ^ 32) /\ wf_bytes (snd kv)) ops /\
+  meta_small (w_m w) /\ m_bytes_index_block (w_m w) < 2 ^ 32.
+
+(* C09_statement with its size hypotheses made explicit *)
+Theorem T09_full : forall o off0 ops w rs, 1 <= wo_interval o ->
+  writer_session compress_default compress_level o off0 ops = Ok (w, rs) ->
+  fits o ops w ->
+  exists t, parse_table decompress off0 (writer_bytes w) = inr t /\
+    wf_validate off0 (mkexpect (wo_block_size o) (wo_interval o) (wo_comp o)) t = 0 /\
+    table_entries t = accepted None ops.
+Proof.
+  intros o off0 ops w rs Hi Hs Hf.
+  destruct (written_file_decodes compress_default compress_level decompress decompress_compress_default decompress_compress_level
+              compress_default_bytes compress_level_bytes o off0 ops w rs Hi Hs Hf) as (t & H1 & _ & H2 & H3 & _ & H4).
+  exists t. repeat split; [exact H1|exact H4|rewrite H2; exact H3].
+Qed.
+
+(* Tier 1 with the identification of what the decoder returns; Tier 2 in both forms *)
+Theorem T09e_decoder_finds_structure : forall o off0 ops w rs, 1 <= wo_interval o ->
+  writer_session compress_default compress_level o off0 ops = Ok (w, rs) ->
+  fits o ops w ->
+  exists (ds : list dblk) (ib : bb) (ips : list pentry) (iridx : list nat),
+    parse_table decompress off0 (writer_bytes w) =
+      inr (mkat (tr_of (w_m w))
+                (map (fun d => (d_off d, mkab (d_ps d) (map (offset_of (d_ps d)) (d_ridx d)) (len (d_raw d)) false,
+                                len (frame (d_stored d)))) ds)
+                (mkab ips (map (offset_of ips) iridx) (len (bb_finish ib)) false)
+                (len (frame (bb_finish ib)))) /\
+    writer_bytes w = frames_of ds ++ frame (bb_finish ib) ++ metadata_write (w_m w) /\
+    Forall (dblk_ok compress_default compress_level o) ds /\ offs_ok off0 ds /\
+    fences_ok (wo_block_size o) ds None /\
+    bbinv ib ips iridx /\ bb_interval ib = wo_interval o /\ Forall2 idx_entry ips ds /\
+    all_entries ds [] = kept ops rs /\ kept ops rs = accepted None ops /\ rs = accept_spec None ops.
+Proof.
+  intros o off0 ops w rs Hi Hs Hf.
+  destruct (written_file_decodes compress_default compress_level decompress decompress_compress_default decompress_compress_level
+              compress_default_bytes compress_level_bytes o off0 ops w rs Hi Hs Hf)
+    as (t & H1 & (ds & ib & ips & iridx & Ht & G1 & G2 & G3 & G4 & G5 & G6 & G7) & H2 & H3 & H4 & _).
+  exists ds, ib, ips, iridx. subst t. rewrite table_entries_of_ds in H2.
+  split; [exact H1|]. repeat match goal with |- _ /\ _ => split end; assumption.
+Qed.
+End C09full.
+Print Assumptions T09_full.
+Print Assumptions T09e_decoder_finds_structure.
+
+(* wf_validate is exactly the conjunction of its seven component checks (all proved to pass) *)
+Theorem T09f_validator_components : forall off0 x t,
+  wf_validate off0 x t = 0 <->
+  (chk_version t = true /\ chk_blocks (ex_interval x) t = 0 /\ chk_index_block (ex_interval x) t = 0 /\
+   chk_order t = true /\ chk_index t = 0 /\ chk_sizes (ex_block_size x) t = 0 /\ chk_stats off0 x t = true).
+Proof.
+  intros off0 x t. split; [apply wf_validate_components|].
+  intros (H1 & H2 & H3 & H4 & H5 & H6 & H7). apply wf_validate_split; assumption.
+Qed.
+Print Assumptions T09f_validator_components.
+
+(* ---- why the extra hypotheses: the statement of Properties_C09.C09_statement fails without them ---- *)
+Definition judge (cd : N -> bytes -> res bytes) (dc : N -> bytes -> res bytes) (o : wopts) (off : N) (ops : list entry) : N + N :=
+  match writer_session cd (fun _ _ _ => Fail) o off ops with
+  | Ok (w, _) => match parse_table dc off (writer_bytes w) with
+                 | inr t => inr (wf_validate off (mkexpect (wo_block_size o) (wo_interval o) (wo_comp o)) t)
+                 | inl e => inl e
+                 end
+  | _ => inl 999
+  end.
+
+(* a decompressor that does not invert the compressor: the decoder stops with E_BLOCK *)
+Example C09_needs_roundtrip :
+  judge (fun _ raw => Ok raw) (fun _ _ => Fail) (mkwopts 1 (-10000)%Z 64 2) 0 [([97], [1])] = inl E_BLOCK /\
+  judge (fun _ raw => Ok raw) (fun _ c => Ok c) (mkwopts 1 (-10000)%Z 64 2) 0 [([97], [1])] = inr 0.
+Proof. vm_compute. split; reflexivity. Qed.
+
+(* a value "byte" that is not a byte (model artefact: bytes are N): the model CRC no longer fits
+   the 32-bit checksum field and the decoder stops with E_FRAME; 256 is still harmless *)
+Example C09_needs_bytes :
+  judge (fun _ _ => Fail) (fun _ _ => Fail) (mkwopts 0 (-10000)%Z 64 2) 0 [([97], [2 ^ 110])] = inl E_FRAME /\
+  judge (fun _ _ => Fail) (fun _ _ => Fail) (mkwopts 0 (-10000)%Z 64 2) 0 [([97], [256])] = inr 0.
+Proof. vm_compute. split; reflexivity. Qed.
+
+(* non-vacuity: the hypotheses of T09_full are met by a concrete multi-block session (the one of
+   T09_example: three data blocks, initial offset 7, no compression) *)
+Example T09_full_hypotheses_met :
+  let o := mkwopts 0 (-10000)%Z 64 2 in
+  let ops := [([97], repeat 120 30); ([97; 98], repeat 121 30); ([98], repeat 122 30); ([98; 0], [])] in
+  (forall a raw c, (fun _ _ => Fail) a raw = Ok c -> (fun (_ : N) (_ : bytes) => @Fail bytes) a c = Ok raw) /\
+  exists w rs, writer_session (fun _ _ => Fail) (fun _ _ _ => Fail) o 7 ops = Ok (w, rs) /\
+               1 <= wo_interval o /\ fits o ops w /\ m_count_data_blocks (w_m w) = 3.
+Proof.
+  cbv zeta. split; [discriminate|].
+  eexists. eexists. split; [vm_compute; reflexivity|].
+  split; [vm_compute; discriminate|]. split; [|reflexivity].
+  unfold fits. split; [|split; [vm_compute; repeat split; reflexivity|vm_compute; reflexivity]].
+  repeat (constructor; [cbn [fst snd]; repeat split; try (vm_compute; reflexivity);
+                        repeat (constructor; try (unfold wf_byte; lia))|]).
+  constructor.
+Qed.
+
+(* the statement with only |key|, |value| < 2^32 as size hypotheses is false, for every compressor and
+   decompressor: at the 4 GiB restart-width switch a multi-entry block reaches block_size (observation O1) *)
+Theorem T09_unrestricted_refuted : forall compress_default compress_level decompress,
+  ~ C09_statement compress_default compress_level decompress.
+Proof. exact C09_statement_false. Qed.
+Print Assumptions T09_unrestricted_refuted.
